@@ -26,9 +26,10 @@ func stringRuleToASTNode(r schema.RuleASTNode) schema.ASTNode {
 }
 
 func stringRuleToASTNodeType(a schema.ASTNode, s string) schema.ASTNode {
-	if s == "any" {
+	if s == "any" || s == "enum" {
+		// "enum": the JSON type is given by the enum items, not by the type name
 		a.TokenType = schema.TokenTypeString
-		a.SchemaType = s // any
+		a.SchemaType = s // any, enum
 	} else if format := FormatFromSchemaType(s); format != nil { // JSight example: // {or: [ "email"... ]}
 		a.TokenType = schema.TokenTypeString
 		a.Rules.Set("type", schema.RuleASTNode{
